@@ -49,6 +49,8 @@ def run(chk):
     e10.run_U(chk, ("yastn.tensor", "yastn.initialize"), floor1=5, floor2=1)
 
 MUTANTS = [
+    ('in-place consumption without hfs', 'yastn/tensor/_initialize.py', '        a.struct, a.slices, a.hfs, a._data, a._trans = c.struct, c.slices, c.hfs, c._data, c._trans', '        a.struct, a.slices, a._data, a._trans = c.struct, c.slices, c._data, c._trans', 'I7'),
+    ('narrowed block list keeps the old size', 'yastn/tensor/_single.py', '    struct = a.struct._replace(t=c_t, D=c_D, size=size)', '    struct = a.struct._replace(t=c_t, D=c_D)', 'S7'),
     ('remove_leg ignores the signature', 'yastn/tensor/_single.py', '        newn = a.config.sym.add_charges(a.struct.n, t, signatures=(-1, a.struct.s[haxis]), new_signature=-1)', '        newn = a.config.sym.add_charges(a.struct.n, t)', 'S2'),
     ('axis guard forgets negative axes', 'yastn/tensor/_tests.py', '        if sa0 - set(range(a.ndim)) or sa1 - set(range(b.ndim)):', '        if max(sa0, default=-1) >= a.ndim or max(sa1, default=-1) >= b.ndim:', 'S1'),
     ("unaligned charge slice", "yastn/tensor/_merging.py", "to[n * nsym: (n + 1) * nsym]", "to[n: n + nsym]", "S6"),
